@@ -250,6 +250,7 @@ func (r *Run) checkWhitespaceSet(P string, tr *ssa.Function, fns []*ssa.Function
 		if ws == nil {
 			ws = preds[0]
 		}
+		r.checkWhitespaceUses(P, tr, fns, ws, setErr)
 		got, ok := byteClass(ws)
 		r.R.Check(ok && fmt.Sprint(got) == fmt.Sprint(want), id, "E3 byte class by region representatives: the whitespace predicate accepts exactly {0x09, 0x0a, 0x0d, 0x20}", core.FuncName(ws), r.where(ws), why,
 			fmt.Sprint(got), fmt.Sprintf("accepted bytes %v (decided=%v), expected %v", got, ok, want))
@@ -258,7 +259,7 @@ func (r *Run) checkWhitespaceSet(P string, tr *ssa.Function, fns []*ssa.Function
 		found, det := false, ""
 		if setErr != nil {
 			ff := r.E.Facts(tr, core.Ctx{})
-			for _, c := range callsOfClosure(tr, setErr) {
+			for _, c := range fixedErrCalls(tr, setErr, nil) {
 				at := ff.At(c)
 				n := 0
 				for _, k := range want {
@@ -339,4 +340,79 @@ func (r *Run) checkEscapeControl(P string, fns []*ssa.Function) {
 	}
 	r.R.Check(okU && okRaw, id, "E2 spec constant: a byte is written as \\u00xx exactly when it is below 0x20 (and has no two-character escape), and copied only when it is 0x20 or above", core.FuncName(dec), r.where(dec),
 		"RFC 8785 §3.2.2.2: control characters must be escaped and nothing else may be — a bound of 0x1f leaves U+001F raw (invalid JSON), a bound of 0x21 spells the space as \\u0020 and changes every hash", det, "condition of the \\u escape / of the raw copy is not c < 0x20 / c >= 0x20: "+det)
+}
+
+// checkWhitespaceUses: what the scanner does with a byte it has asked the whitespace predicate about happens on the
+// "not whitespace" side: the byte is returned as the next significant character, appended to a literal / number token,
+// or reported as trailing content only where the predicate said no.
+func (r *Run) checkWhitespaceUses(P string, tr *ssa.Function, fns []*ssa.Function, ws, setErr *ssa.Function) {
+	checkErr, _ := jcsErrClosures(tr, fns)
+	n := 0
+	var bad []string
+	for _, f := range fns {
+		calls := callsOfClosure(f, ws)
+		if len(calls) == 0 {
+			continue
+		}
+		ff := r.E.Facts(f, core.Ctx{})
+		for _, c := range calls {
+			if len(c.Common().Args) != 1 {
+				continue
+			}
+			v := c.Common().Args[0]
+			wt := ff.TB.Of(c).String()
+			onNo := func(ins ssa.Instruction) bool {
+				for _, fc := range ff.At(ins) {
+					if fc.Kind == "false" && fc.A != nil && fc.A.String() == wt {
+						return true
+					}
+				}
+				return false
+			}
+			for _, blk := range f.Blocks {
+				if ff.Live != nil && !ff.Live[blk] {
+					continue
+				}
+				for _, ins := range blk.Instrs {
+					use := ""
+					switch x := ins.(type) {
+					case *ssa.Return:
+						for _, rv := range x.Results {
+							if rv == v {
+								use = "returned as the next character"
+							}
+						}
+					case *ssa.Call:
+						if sc := x.Common().StaticCallee(); sc != nil && strings.HasSuffix(sc.String(), ".WriteByte") && len(x.Common().Args) == 2 && x.Common().Args[1] == v {
+							use = "appended to the token"
+						}
+						if f == tr && isFixedErrCall(x, tr, setErr, checkErr) && x.Block() != c.Block() {
+							// (the error call sits in the branch the predicate selects)
+							if c.Block().Dominates(x.Block()) {
+								use = "reported as trailing content"
+							}
+						}
+					}
+					if use == "" {
+						continue
+					}
+					n++
+					if !onNo(ins) {
+						bad = append(bad, core.FuncName(f)+": byte "+use+" at "+r.P.Pos(ins.Pos())+" without the predicate having answered no")
+					}
+					// whitespace ends a token: once the predicate has said yes nothing more is appended
+					if use == "appended to the token" {
+						if iff, isIf := c.Block().Instrs[len(c.Block().Instrs)-1].(*ssa.If); isIf && iff.Cond == ssa.Value(c) {
+							if yes := c.Block().Succs[0]; yes == ins.Block() || blockReaches(ff, yes, ins.Block(), nil) {
+								bad = append(bad, core.FuncName(f)+": the token goes on after whitespace ("+r.P.Pos(ins.Pos())+" is reachable from the 'yes' edge)")
+							}
+						}
+					}
+				}
+			}
+		}
+	}
+	r.R.SetCount("whitespace-predicate uses examined", n)
+	r.R.Check(len(bad) == 0 && n >= 3, P+".ws.uses", "E2: a byte is returned by the scanner, appended to a literal/number token or reported as trailing content only on the 'not whitespace' edge of the predicate asked about that byte", core.FuncName(ws), r.where(ws),
+		"whitespace between tokens must be skipped and must end a number or literal; a byte after the value is an error exactly when it is not whitespace", fmt.Sprintf("%d uses, all on the 'no' edge", n), fmt.Sprintf("%d use(s) examined (need 3); %s", n, strings.Join(bad, "; ")))
 }
